@@ -5,7 +5,7 @@ import traceback
 
 from hypothesis import strategies as st
 
-from pbt import core, formats, strategies as S
+from pbt import bamprog, core, formats, strategies as S
 from pbt.core import Failure
 from pbt.props import c04
 
@@ -16,16 +16,21 @@ RULE = ("One generated file (canonical spellings, LF, final newline: the only in
         "np.concatenate of two pairs, bnp.replace(t, f=array), attribute assignment t.f = array, tolist, write. Formats: BED3, BED6, narrowPeak, "
         "FASTQ, two-line FASTA, VCF (with and without typed INFO header), SAM. Oracle (differential): after every step both sides give equal "
         "Python-level values (floats within 8 ulp) and equal written bytes, or both raise. Non-trivial: the history has a field access before an "
-        "indexing step and a replace or a concatenation (at least two of the lazy object's three stores in play).")
+        "indexing step and a replace or a concatenation (at least two of the lazy object's three stores in play). "
+        "BAM (pbt/bamprog.py): a file from the independent encoder read with lazy=True and lazy=False; the same program of selections, single-field "
+        "reads, full reads, len, writes and concatenations (random steps plus chains select - read fields - write - read other fields) runs on both; "
+        "every observation must be equal in both modes or raise in both, and every table of the pool is read completely at the end.")
 ASSUMPTIONS = [
     "Replacement values are arrays in the column's own representation.",
     "Which exception is raised is not compared, only whether one is.",
     "Written bytes that differ only in the text of a float column, by at most 8 ulp, are the open finding D16 (str_to_float is not correctly rounded) seen from this side.",
+    "BamBuffer declares supports_modified_write = False: a parsed (eagerly read or concatenated) BAM table has no bytes to write and writing it raises. "
+    "For BAM the written bytes are therefore compared only when both modes wrote; a write that raises on the parsed side is the tolerant class 'bam-write-unsupported'.",
 ]
 REQUIRED_CLASSES = ["chunked", "whole", "access-index-replace-concat-write", "concat-second-operand-replaced", "concat-after-access-on-first",
-                    "setattr", "int-index", "typed-info"]
-BOUNDS = {"quick": "300 programs of up to 10 steps for each of 8 format variants, files of up to 8 records",
-          "thorough": "8000 programs of up to 25 steps per variant, files of up to 25 records"}
+                    "setattr", "int-index", "typed-info", "bam", "bam-write-selection", "bam-observe-after-write", "bam-get-then-write"]
+BOUNDS = {"quick": "300 programs of up to 10 steps for each of 8 text format variants, files of up to 8 records; 400 BAM programs on files of up to 6 records",
+          "thorough": "8000 programs of up to 25 steps per text variant, files of up to 25 records; 9600 BAM programs on files of up to 16 records"}
 BUDGET_S = {"quick": 200, "thorough": 1500}
 
 FMTS = ["bed3", "bed6", "narrowpeak", "fastq", "fasta2", "vcf", "vcf-typed", "sam"]
@@ -174,6 +179,8 @@ def check(case, stats=None):
     import bionumpy as bnp
     from pbt.props.c02 import reset_state
     reset_state()
+    if case["fmt"] == "bam":
+        return bamprog.check_c05(case, stats)
     fmt = formats.FORMATS[case["fmt"]]
     out = []
     try:
@@ -261,6 +268,8 @@ def check(case, stats=None):
 
 
 def classify(case):
+    if case["fmt"] == "bam":
+        return bamprog.classify(case)
     prog = case["program"]
     kinds = [op["op"] for op in prog]
     cl = [case["fmt"], "chunked" if case.get("k") else "whole"]
@@ -382,9 +391,16 @@ def task_fmt(stats, known_open, variant, n, seed, max_records, max_steps):
     core.run_hypothesis(sys.modules[__name__], c05_case(variant, max_records, max_steps), stats, known_open, max_examples=n, seed=seed)
 
 
+def task_bam(stats, known_open, n, seed, max_records, max_steps):
+    import sys
+    core.run_hypothesis(sys.modules[__name__], bamprog.bam_case(max_records, max_steps), stats, known_open, max_examples=n, seed=seed)
+
+
 def tasks(tier, seed):
     out = []
     n, mr, ms, reps = (300, 8, 10, 1) if tier == "quick" else (2000, 25, 25, 4)
+    for j in range(2 if tier == "quick" else 8):
+        out.append(("task_bam", dict(n=200 if tier == "quick" else 1200, seed=seed * 1000 + 900 + j, max_records=6 if tier == "quick" else 16, max_steps=6)))
     for i, v in enumerate(FMTS):
         for j in range(reps):
             out.append(("task_fmt", dict(variant=v, n=n, seed=seed * 1000 + i * 10 + j, max_records=mr, max_steps=ms)))
